@@ -18,6 +18,8 @@
                                checkpoints stay) / restore_stash_attributions (the saved line
                                numbers become INITIAL of the current HEAD, recorded with the stashed
                                content they refer to)
+    stopCredit / replayStepR   rebase_authorship.rs:credit_lines_recorded_while_stopped (the working
+                               logs of the commits a rebase / cherry-pick stopped on win over the lookup)
     replayChain / replayStep   rebase_authorship.rs:rewrite_authorship_after_rebase_v2 and
                                rewrite_authorship_after_cherry_pick: every line a new commit adds
                                is credited, line by line and by content, through the two tables
@@ -136,6 +138,38 @@ def replayStep (drop : Nat) (mid : List ((List Nat × List Nat) × Note)) (k : N
   { head := tip, index := tip, work := tip, entries := [], initial := [],
     log := chain.map (·.1) ++ baseLog, notes := chain.map (·.2) ++ baseNotes }
 
+/-- lines recorded while the operation was stopped: rebase_authorship.rs:credit_lines_recorded_while_stopped.
+    `res` = the lines (id, session) that the working logs of the commits the operation stopped on credit
+    to an agent (the last recorded state of their file) and that the commit concluding the stop adds.
+    The working log wins, the replay lookup fills the gaps. -/
+def stopCredit (res : List (Nat × Nat)) (orig : Nat → Author) (y : Nat) : Author :=
+  match res.lookup y with
+  | some s => some s
+  | none => orig y
+
+/-- the claims the working log of a stopped-on commit holds for the lines `ids` typed by `who` when the
+    checkpoint that reported them was recorded (a person's lines: none) -/
+def stopClaims (who : Author) (ids : List Nat) : List (Nat × Nat) :=
+  match who with
+  | some s => ids.map (fun y => (y, s))
+  | none => []
+
+/-- `replayStep` of an operation that stopped on the way (conflict, `edit`, `break`) and went on with
+    `--continue`: the same replay, every added line credited through `stopCredit res`; the working logs
+    that were read are dropped (the model's pending state is empty after a replay anyway). -/
+def replayStepR (res : List (Nat × Nat)) (drop : Nat) (mid : List ((List Nat × List Nat) × Note)) (k : Nat)
+    (srcLog : List (List Nat × List Nat)) (srcNotes : List Note) (news : List (List Nat))
+    (st : State) : State :=
+  let orig := stopCredit res (replayCredit k srcLog srcNotes)
+  let st0 := undoN drop st
+  let baseLog := mid.map (·.1) ++ st0.log
+  let baseNotes := mid.map (·.2) ++ st0.notes
+  let baseTip := midTip mid st0.head
+  let chain := replayChain orig baseTip news
+  let tip := midTip chain baseTip
+  { head := tip, index := tip, work := tip, entries := [], initial := [],
+    log := chain.map (·.1) ++ baseLog, notes := chain.map (·.2) ++ baseNotes }
+
 /-- `git merge --squash src`: git produces the merged content `ys` (staged, not committed); the
     lines the target does not have are pending, credited as the source history credited them -/
 def squashPrepare (srcLog : List (List Nat × List Nat)) (srcNotes : List Note) (ys : List Nat)
@@ -174,13 +208,17 @@ inductive ROp where
   | switchCarry (otherLog : List (List Nat × List Nat)) (otherNotes : List Note) (otherHead : List Nat)
   | switchMerge (otherLog : List (List Nat × List Nat)) (otherNotes : List Note) (otherHead ys : List Nat)
   | aborted          -- an operation that aborts, fails or is a dry run
-  /-- lines typed into the working tree while a rebase / cherry-pick is stopped at a conflict (`who` =
-      the session of the agent whose checkpoint reported them, `none` = a person). The checkpoint lands
-      in the working log of the commit the operation stopped on; `git rebase --continue` makes the
-      commit inside git and the completed operation is replayed from the source history alone
-      (rebase_hooks.rs:process_completed_rebase → rewrite_authorship_after_rebase_v2), which never
-      reads that working log: the state the later steps look at does not change. -/
+  /-- lines typed into the working tree while a rebase / cherry-pick is stopped (`who` = the session of
+      the agent that reported them, `none` = a person). The state the later steps look at does not
+      change: a checkpoint reported during the stop lands in the working log of the commit the operation
+      stopped on, which only the replay that concludes the operation reads (`replayR`, its `res`); and a
+      checkpoint for a file that is still unmerged records nothing at all
+      (checkpoint.rs:get_status_of_files skips `EntryKind::Unmerged`). -/
   | typed (who : Author) (ids : List Nat)
+  /-- `replay` for an operation that stopped and was continued: `res` = the typed lines that a checkpoint
+      recorded for an agent in the working log of a stopped-on commit (id, session) -/
+  | replayR (res : List (Nat × Nat)) (drop : Nat) (mid : List ((List Nat × List Nat) × Note))
+      (src : Option (List (List Nat × List Nat) × List Note)) (news : List (List Nat))
   deriving Repr
 
 def rstep (r : RState) : ROp → RState
@@ -198,6 +236,10 @@ def rstep (r : RState) : ROp → RState
   | .switchMerge l n h ys => { r with st := switchMerge l n h ys r.st }
   | .aborted => r
   | .typed _ _ => r
+  | .replayR res drop mid src news =>
+    match src with
+    | some (l, n) => { r with st := replayStepR res drop mid news.length l n news r.st }
+    | none => { r with st := replayStepR res drop mid drop r.st.log r.st.notes news r.st }
 
 def rrun (r : RState) (ops : List ROp) : RState := ops.foldl rstep r
 
